@@ -22,6 +22,7 @@ import hashlib
 import os
 import struct
 import types
+import zlib
 
 from common import coq
 
@@ -32,14 +33,16 @@ LEVEL_TEXT = ("Machine-checked proof (Coq, closed under the global context) over
               "for ALL payload lengths and every suite of the tables, 4 <= padding <= min(bs+3, 255), pad byte = "
               "padding bytes appended, length field = 1 + len + padding = packet length - 4, the portion handed to "
               "the cipher is a positive whole number of blocks (and of 8) with the length field excluded exactly "
-              "for EtM/AEAD, tag length = table size / 16 for AEAD / 0 in the clear; byte-level layout of the "
-              "written bytes under explicit length premises on the library engines.  Tied to the code by the "
+              "for EtM/AEAD, tag length = table size / 16 for AEAD / 0 in the clear; minimum packet size (16 "
+              "clear/classic, 4+bs for EtM/AEAD); byte-level layout of what send_message writes (type-byte read, "
+              "compress-then-frame) under explicit length premises on the library engines.  Tied to the code by the "
               "translator and by an exhaustive differential run (all modes x block sizes x lengths 0..4*bs+8, "
               "all cipher x MAC pairs with real engines) of the real Packetizer/Transport against the model.")
 LEVEL_NOTE = ("Trusted: Coq kernel + vm_compute; gen/c03.py (fail-closed AST translator); the wrappers of "
               "coq/Model/C03.v (branch order of send_message, list layout) validated by the correspondence run; "
               "library engines' length behaviour (update preserves length, AESGCM appends 16, HMAC digest size) is "
-              "a premise of the byte-level theorem and is exercised with the real engines here; compression is off; "
+              "a premise of the byte-level theorem and is exercised with the real engines here; the compressor is an "
+              "arbitrary function in the model (its output length is an input of the arithmetic); "
               "struct.pack range errors are modelled (StructErr) but unreachable for table block sizes.")
 TECHNIQUE = "AST translation to Gallina + lia proofs for all lengths + vm_compute differential correspondence"
 
@@ -116,6 +119,66 @@ class RecordingEngine:
     def encrypt(self, iv, data, aad):
         self.calls.append(("encrypt", bytes(data), bytes(aad)))
         return self.eng.encrypt(iv, data, aad)
+
+
+class RecComp:
+    """Proxy around a compressor (a library primitive): records what it returned."""
+
+    def __init__(self, inner):
+        self.inner = inner
+        self.last = None
+
+    def __call__(self, data):
+        out = self.inner(data)
+        self.last = bytes(out)
+        return out
+
+
+class ToyComp:
+    """Stateful, expanding stand-in for a compressor: header byte, stream counter, reversed data."""
+
+    def __init__(self):
+        self.k = 0
+
+    def __call__(self, data):
+        self.k = (self.k + 1) & 0xFF
+        return bytes([0x78, self.k]) + bytes(data)[::-1]
+
+
+class ToyDecomp:
+    def __init__(self):
+        self.k = 0
+
+    def decompress(self, b):
+        self.k = (self.k + 1) & 0xFF
+        if bytes(b[:2]) != bytes([0x78, self.k]):
+            raise ValueError("toy stream header")
+        return bytes(b[2:])[::-1]
+
+
+INDEX_ERR = [8]     # exn_code IndexErr (coq/Lib/Bytes.v)
+
+
+def framed_of(ctx, rc, dec, payload, case):
+    """The bytes _build_packet must have framed: the compressor's output when one is installed."""
+    if rc is None:
+        return payload
+    if rc.last is None:
+        ctx.fail("compression-skipped", "a compressor is installed but send_message did not call it",
+                 case=dict(case, payload_len=len(payload)))
+        return payload
+    return rc.last
+
+
+def check_decompress(ctx, dec, plain, flen, payload, case):
+    """Independent receiver: the framed payload decompresses (stream state kept) to the original message."""
+    try:
+        back = dec.decompress(plain[5:5 + flen])
+    except Exception as e:
+        back = "%s: %s" % (type(e).__name__, e)
+    if back != payload:
+        ctx.fail("compressed-payload", "the framed payload does not decompress to the message that was sent",
+                 case=dict(case, payload_len=len(payload), plain=plain), expected=payload, observed=back)
 
 
 class _Raw:
@@ -224,7 +287,9 @@ def toy_configs(ctx, table_bs):
     cfgs = []
     for bs in sizes + [b for b in extra if b not in sizes]:
         cfgs.append(dict(enc=False, etm=False, aead=False, sdctr=False, bs=bs, mac=0, digest=0, atag=16,
-                         hash=None, set_bs=(bs != 8)))
+                         hash=None, set_bs=(bs != 8), comp=None))
+        cfgs.append(dict(enc=False, etm=False, aead=False, sdctr=False, bs=bs, mac=0, digest=0, atag=16,
+                         hash=None, set_bs=(bs != 8), comp="zlib"))
         i = 0
         for etm in (False, True):
             for aead in (False, True):
@@ -234,7 +299,12 @@ def toy_configs(ctx, table_bs):
                         i += 1
                         cfgs.append(dict(enc=True, etm=etm, aead=aead, sdctr=sdctr, bs=bs, mac=msz,
                                          digest=hashlib.new(h).digest_size, atag=16 if i % 3 else 9,
-                                         hash=h, set_bs=True))
+                                         hash=h, set_bs=True, comp=None))
+                # compress-then-frame: one configuration per framing mode
+                h, msz = macs[(i + bs) % len(macs)]
+                cfgs.append(dict(enc=True, etm=etm, aead=aead, sdctr=False, bs=bs, mac=msz,
+                                 digest=hashlib.new(h).digest_size, atag=16, hash=h, set_bs=True,
+                                 comp="toy" if (etm != aead) else "zlib"))
     return cfgs
 
 
@@ -252,22 +322,35 @@ def toy_packetizer(cfg):
         # no cipher but a non-default block size ("none" cipher after a re-key is not offered by paramiko;
         # exercised only so that the clear path is covered for every block size)
         p.set_outbound_cipher(None, cfg["bs"], None, 0, b"")
+    p.c03_rc = p.c03_dec = None
+    if cfg.get("comp"):
+        from paramiko.compress import ZlibCompressor
+        p.c03_rc = RecComp(ZlibCompressor() if cfg["comp"] == "zlib" else ToyComp())
+        p.c03_dec = zlib.decompressobj() if cfg["comp"] == "zlib" else ToyDecomp()
+        p.set_outbound_compressor(p.c03_rc)
     return p, sink, eng
 
 
 def toy_one(ctx, cfg, p, sink, eng, n, seq):
     payload = payload_of(n, cfg["bs"] + seq)
+    case = {"drive": "toy", "cfg": dict(cfg), "seq": seq}
     if eng is not None:
         eng.calls = []
+    if p.c03_rc is not None:
+        p.c03_rc.last = None
     try:
         p.send_message(_Raw(payload))
     except Exception as e:
-        case = {"drive": "toy", "cfg": dict(cfg), "seq": seq}
+        sink.take()
+        if n == 0 and isinstance(e, IndexError):
+            return INDEX_ERR, case, 0          # no message type byte to read
         ctx.fail("send-raises", "send_message raised %s" % type(e).__name__, case=dict(case, payload_len=n),
                  observed=repr(e)[:200])
-        sink.take()
-        return None, case
+        return None, case, n
     wire = sink.take()
+    raw_payload = payload
+    payload = framed_of(ctx, p.c03_rc, p.c03_dec, raw_payload, case)
+    n = len(payload)
     calls = list(eng.calls) if eng is not None else []
     # recover the packet: toy cipher is an XOR
     if not cfg["enc"]:
@@ -287,8 +370,9 @@ def toy_one(ctx, cfg, p, sink, eng, n, seq):
     use_aead = cfg["enc"] and cfg["aead"] and not cfg["etm"]
     exp_tag = 0 if not cfg["enc"] else (cfg["atag"] if use_aead else (0 if cfg["aead"] else min(cfg["mac"], cfg["digest"])))
     exp = dict(bs=cfg["bs"], excl=(cfg["etm"] or cfg["aead"]), enc=cfg["enc"], tag=exp_tag)
-    case = {"drive": "toy", "cfg": {k: v for k, v in cfg.items()}, "seq": seq}
     summ = parse_and_check(ctx, case, n, payload, wire, plain, calls, exp)
+    if summ is not None and p.c03_rc is not None:
+        check_decompress(ctx, p.c03_dec, plain, n, raw_payload, case)
     if summ is not None and cfg["enc"] and not cfg["aead"]:
         # the MAC is HMAC(key, seq || (ciphertext incl. clear length if EtM else plaintext packet))
         body = wire[:len(plain)] if cfg["etm"] else plain
@@ -296,8 +380,9 @@ def toy_one(ctx, cfg, p, sink, eng, n, seq):
         if tag != want[:cfg["mac"]]:
             ctx.fail("mac-value", "appended MAC is not HMAC(seq || %s) truncated to mac_size"
                      % ("ciphertext" if cfg["etm"] else "plaintext packet"),
-                     case=dict(case, payload_len=n, wire=wire), expected=want[:cfg["mac"]], observed=tag)
-    return summ, case
+                     case=dict(case, payload_len=len(raw_payload), wire=wire), expected=want[:cfg["mac"]],
+                     observed=tag)
+    return summ, case, n
 
 
 def build_only(ctx, cfg, p, n):
@@ -336,9 +421,9 @@ def build_input(cfg, n):
     return coq(((cfg["enc"], cfg["etm"], cfg["aead"], cfg["sdctr"]), cfg["bs"], n))
 
 
-def toy_input(cfg, n):
+def toy_input(cfg, raw, flen):
     return coq(((cfg["enc"], cfg["etm"], cfg["aead"], cfg["sdctr"]),
-                (cfg["bs"], cfg["mac"], cfg["digest"], cfg["atag"]), n))
+                (cfg["bs"], cfg["mac"], cfg["digest"], cfg["atag"]), (raw, flen)))
 
 
 # --------------------------------------------------------------------------- table drive
@@ -351,6 +436,11 @@ def make_transport():
     class RecPacketizer(Packetizer):
         rec_engine = None
         rec_args = None
+        rec_comp = None
+
+        def set_outbound_compressor(self, compressor):
+            self.rec_comp = RecComp(compressor)
+            return Packetizer.set_outbound_compressor(self, self.rec_comp)
 
         def set_outbound_cipher(self, *a, **kw):
             names = ["block_engine", "block_size", "mac_engine", "mac_size", "mac_key", "sdctr", "etm", "aead",
@@ -373,14 +463,14 @@ def inc_iv(iv):
     return iv[:4] + ((int.from_bytes(iv[4:], "big") + 1) & (2 ** 64 - 1)).to_bytes(8, "big")
 
 
-def table_suite(ctx, ci, cname, cinfo, mi, mname, minfo, lens, server_mode, results):
+def table_suite(ctx, ci, cname, cinfo, mi, mname, minfo, lens, server_mode, results, compression="none"):
     """Drive one (cipher, MAC) suite; appends (input, summary, case) to results."""
     from cryptography.hazmat.primitives.ciphers import Cipher
     t, sink = make_transport()
     t.server_mode = server_mode
     t.local_cipher = cname
     t.local_mac = mname
-    t.local_compression = "none"
+    t.local_compression = compression
     t.K = 0x1234567890ABCDEF1234567890ABCDEF ^ (ci * 977 + mi)
     t.H = hashlib.sha256(b"H" + cname.encode() + mname.encode()).digest()
     t.session_id = hashlib.sha256(b"sid").digest()
@@ -390,8 +480,9 @@ def table_suite(ctx, ci, cname, cinfo, mi, mname, minfo, lens, server_mode, resu
     aead = bool(cinfo.get("is_aead", False))
     etm = (not aead) and ETM_MARKER in mname
     case0 = {"drive": "table", "cipher": cname, "mac": mname, "server_mode": server_mode,
+             "compression": compression,
              "framing_class": [bs, aead, cname.endswith("-ctr"), etm, 16 if aead else minfo["size"],
-                               0 if aead else minfo["class"]().digest_size]}
+                               0 if aead else minfo["class"]().digest_size, compression]}
 
     # NEWKEYS goes out under the previous (initial) state
     t._activate_outbound()
@@ -400,8 +491,15 @@ def table_suite(ctx, ci, cname, cinfo, mi, mname, minfo, lens, server_mode, resu
     summ = parse_and_check(ctx, dict(case0, phase="NEWKEYS before activation"), 1, b"\x15", wire, wire, [], exp)
     ctx.count(("newkeys", cname, mname), kind="table-newkeys")
     if summ is not None:
-        results.append((coq((-1, 0, 1)), summ, dict(case0, phase="NEWKEYS", payload_len=1)))
+        results.append((coq((-1, 0, (1, 1))), summ, dict(case0, phase="NEWKEYS", payload_len=1)))
     pk = t.packetizer
+    zdec = None
+    if compression != "none":
+        if pk.rec_comp is None:
+            ctx.fail("no-compressor", "_activate_outbound installed no compressor although %s was negotiated"
+                     % compression, case=case0)
+        else:
+            zdec = zlib.decompressobj()
     if pk.rec_engine is None:
         ctx.fail("no-engine", "_activate_outbound installed no cipher engine", case=case0)
         return
@@ -423,19 +521,26 @@ def table_suite(ctx, ci, cname, cinfo, mi, mname, minfo, lens, server_mode, resu
         dec = Cipher(cinfo["class"](key), cinfo["mode"](iv)).decryptor()
     seq = 1
     tag_len = 16 if aead else minfo["size"]
-    for n in lens:
-        if n == 0:
-            continue            # send_message reads the message type byte: no empty payload
-        payload = payload_of(n, ci * 11 + mi)
+    for raw_n in lens:
+        raw_payload = payload_of(raw_n, ci * 11 + mi)
         pk.rec_engine.calls = []
+        if pk.rec_comp is not None:
+            pk.rec_comp.last = None
         case = dict(case0, seq=seq)
         try:
-            pk.send_message(_Raw(payload))
+            pk.send_message(_Raw(raw_payload))
         except Exception as e:
+            sink.take()
+            if raw_n == 0 and isinstance(e, IndexError):
+                ctx.count(("table", cname, mname, 0), nontrivial=True, kind="table-empty-message")
+                results.append((coq((ci, mi, (0, 0))), INDEX_ERR, dict(case, payload_len=0)))
+                continue
             ctx.fail("send-raises", "send_message raised %s for a negotiable suite" % type(e).__name__,
-                     case=dict(case, payload_len=n), observed=repr(e)[:200])
+                     case=dict(case, payload_len=raw_n), observed=repr(e)[:200])
             break
         wire = sink.take()
+        payload = framed_of(ctx, pk.rec_comp, zdec, raw_payload, case)
+        n = len(payload)
         calls = list(pk.rec_engine.calls)
         plain = None
         try:
@@ -459,6 +564,8 @@ def table_suite(ctx, ci, cname, cinfo, mi, mname, minfo, lens, server_mode, resu
         if plain is not None:
             exp = dict(bs=bs, excl=(aead or etm), enc=True, tag=tag_len)
             summ = parse_and_check(ctx, case, n, payload, wire, plain, calls, exp)
+            if summ is not None and zdec is not None:
+                check_decompress(ctx, zdec, plain, n, raw_payload, case)
             if summ is not None and not aead:
                 body = wire[:len(wire) - tag_len] if etm else plain
                 want = pyhmac.new(mac_key, struct.pack(">I", seq) + body, minfo["class"]).digest()[:minfo["size"]]
@@ -468,9 +575,10 @@ def table_suite(ctx, ci, cname, cinfo, mi, mname, minfo, lens, server_mode, resu
                              case=dict(case, payload_len=n, wire=wire), expected=want,
                              observed=wire[len(wire) - tag_len:])
             if summ is not None:
-                results.append((coq((ci, mi, n)), summ, dict(case, payload_len=n)))
-        ctx.count(("table", cname, mname, n), nontrivial=True,
-                  kind="table-aead" if aead else ("table-etm" if etm else "table-classic"))
+                results.append((coq((ci, mi, (raw_n, n))), summ, dict(case, payload_len=raw_n, framed_len=n)))
+        ctx.count(("table", cname, mname, raw_n), nontrivial=True,
+                  kind=("table-aead" if aead else ("table-etm" if etm else "table-classic"))
+                  + ("" if compression == "none" else "-zlib"))
         seq += 1
         if plain is None:
             break       # the stream state of the receiver is lost; one failing input is enough
@@ -506,14 +614,15 @@ def run_toy_drive(ctx, table_bs, only=None, builds=None):
             if only is not None:
                 continue
         for n in base + big:
-            if n == 0:
-                continue        # send_message reads the message type byte: no empty payload
-            summ, case = toy_one(ctx, cfg, p, sink, eng, n, seq)
-            seq += 1
+            summ, case, flen = toy_one(ctx, cfg, p, sink, eng, n, seq)
+            if summ is not INDEX_ERR:
+                seq += 1
             mode = "clear" if not cfg["enc"] else ("etm" if cfg["etm"] else ("aead" if cfg["aead"] else "classic"))
+            if cfg.get("comp"):
+                mode += "-compressed"
             ctx.count(("toy", tuple(sorted(cfg.items(), key=str)), n), nontrivial=True, kind="toy-" + mode)
             if summ is not None:
-                results.append((toy_input(cfg, n), summ, dict(case, payload_len=n)))
+                results.append((toy_input(cfg, n, flen), summ, dict(case, payload_len=n, framed_len=flen)))
     return results
 
 
@@ -521,7 +630,11 @@ def compare(ctx, fn, ty, results, what):
     if not results:
         return
     shard = max(200, -(-len(results) // 8))       # at most 8 case files: one round of parallel coqc
-    bad = ctx.model_mismatches(fn, ty, [(i, s) for i, s, _ in results], shard=shard)
+    try:
+        bad = ctx.model_mismatches(fn, ty, [(i, s) for i, s, _ in results], shard=shard)
+    except Exception as e:      # a model that cannot be evaluated never hides what the oracle found
+        ctx.disagree("%s: the model could not be evaluated (%s: %s)" % (what, type(e).__name__, str(e)[-400:]))
+        return
     for k in bad[:3]:
         ctx.disagree("%s: packet summary [L, pad, padbytes, zeropad, packet_len, enc_off, enc_len, tag, wire_len] "
                      "differs from the model" % what, case=results[k][2], impl=results[k][1])
@@ -531,15 +644,22 @@ def run(ctx):
     ctx.rule = ("exhaustive: toy drive = every framing mode (clear, classic, EtM, AEAD, etm+aead) x sdctr x every "
                 "block size of the generated table (+8; 24, 32, 64, 248 in the thorough tier) x payload lengths "
                 "0..4*bs+8 plus seeded large lengths; table drive = every (cipher, MAC) pair of the live tables "
-                "configured by the real _activate_outbound with real engines x lengths 0..4*bs+8 (+ large). "
+                "configured by the real _activate_outbound with real engines x lengths 0..4*bs+8 (+ large); length 0 "
+                "goes through send_message (IndexError expected) and through _build_packet directly; compress-then-"
+                "frame: one toy configuration per framing mode (paramiko's ZlibCompressor or an expanding stand-in) "
+                "and a seed-rotated third of the table suites with local_compression=zlib, independently inflated. "
                 "Every case is a distinct (configuration, length) and non-trivial (a packet is built, written, "
                 "decrypted and parsed).")
     ctx.trusted += ["gen/c03.py AST translator (fail-closed) and the wrappers in coq/Model/C03.v",
                     "library engines: update() preserves length, AESGCM.encrypt appends a 16-byte tag, "
                     "HMAC digest sizes (exercised with the real engines in the table drive)"]
-    ctx.assumptions += ["outbound compression is off (compressed data is the payload being framed)",
+    ctx.assumptions += ["the compressor is a library primitive: any function; the framing theorems are about the "
+                        "compressed data, whose length is an input of the model",
                         "os.urandom is pinned to a constant in the harness process (padding content is an input)"]
-    ctx.prove()
+    try:
+        ctx.prove()
+    except Exception as e:      # the implementation-level oracle below runs whatever happens to the proofs
+        ctx.disagree("building the proofs raised %s: %s" % (type(e).__name__, str(e)[-600:]))
     ciphers, macs = live_tables()
     table_bs = sorted({info["block-size"] for _, info in ciphers})
 
@@ -553,12 +673,13 @@ def run(ctx):
                 if not ctx.thorough and (ci + mi + ctx.seed) % 4:
                     big = []
                 table_suite(ctx, ci, cname, cinfo, mi, mname, minfo, base + big,
-                            server_mode=bool((ci + mi + ctx.seed) % 2), results=table)
+                            server_mode=bool((ci + mi + ctx.seed) % 2), results=table,
+                            compression="zlib" if (ci + 2 * mi + ctx.seed) % 3 == 0 else "none")
     ctx.exhaustive = True
     ctx.log("toy drive: %d packets; table drive: %d packets over %d suites" % (len(toy), len(table),
                                                                              len(ciphers) * len(macs)))
     compare(ctx, "run_build", "((bool * bool * bool * bool) * Z * Z)", builds, "_build_packet")
-    compare(ctx, "run_toy", "((bool * bool * bool * bool) * (Z * Z * Z * Z) * Z)", toy, "toy drive")
+    compare(ctx, "run_toy", "((bool * bool * bool * bool) * (Z * Z * Z * Z) * (Z * Z))", toy, "toy drive")
     if not ctx.thorough:
         # every packet above went through the RFC oracle; for the model comparison the quick tier keeps all
         # lengths for the first suite of each framing class (block size, aead, sdctr, etm, tag, digest) and a
@@ -567,15 +688,15 @@ def run(ctx):
         sel = []
         for r in table:
             c = r[2]
-            k = tuple(c["framing_class"])
+            k = tuple(c["framing_class"][:6])       # the model is over the framed length: compression apart
             first.setdefault(k, (c["cipher"], c["mac"]))
             n, bs = c["payload_len"], c["framing_class"][0]
-            if first[k] == (c["cipher"], c["mac"]) or n in (1, bs - 5, bs, 4 * bs + 8) or n > 4 * bs + 8:
+            if first[k] == (c["cipher"], c["mac"]) or n in (0, 1, bs - 5, bs, 4 * bs + 8) or n > 4 * bs + 8:
                 sel.append(r)
         ctx.notes.append("quick tier: %d of %d table-drive packets compared with the model (all %d checked by "
                          "the RFC oracle)" % (len(sel), len(table), len(table)))
         table = sel
-    compare(ctx, "run_table", "(Z * Z * Z)", table, "table drive")
+    compare(ctx, "run_table", "(Z * Z * (Z * Z))", table, "table drive")
     for r in (toy[:2] + table[40:42] + table[-1:]):
         ctx.sample({"case": r[2], "impl_summary": r[1]})
 
@@ -593,7 +714,7 @@ def replay(ctx, rep):
             res = run_toy_drive(ctx, sorted({info["block-size"] for _, info in ciphers}),
                                 only={"cfg": case["cfg"], "payload_len": case["payload_len"]})
             ctx.count(("replay", repr(case)[:200]))
-            compare(ctx, "run_toy", "((bool * bool * bool * bool) * (Z * Z * Z * Z) * Z)", res, "toy drive")
+            compare(ctx, "run_toy", "((bool * bool * bool * bool) * (Z * Z * Z * Z) * (Z * Z))", res, "toy drive")
         elif case.get("drive") == "table":
             res = []
             for ci, (cname, cinfo) in enumerate(ciphers):
@@ -603,7 +724,8 @@ def replay(ctx, rep):
                         # same position in the cipher stream as the recorded case
                         lens = list(range(1, n + 1)) if case.get("seq") == n else [n]
                         table_suite(ctx, ci, cname, cinfo, mi, mname, minfo, lens,
-                                    server_mode=bool(case.get("server_mode")), results=res)
-            compare(ctx, "run_table", "(Z * Z * Z)", res, "table drive")
+                                    server_mode=bool(case.get("server_mode")), results=res,
+                                    compression=case.get("compression", "none"))
+            compare(ctx, "run_table", "(Z * Z * (Z * Z))", res, "table drive")
         else:
             run(ctx)
